@@ -402,11 +402,25 @@ def load_route(Grid, route, base):
             return Grid.from_stream(sh, fd)
     if route == "from_zip":
         zp = base + ".zip"
+        name = os.path.basename(base)
+        # the archive also holds other rasters whose member names END with the requested ones (stored earlier, at
+        # the root and in the folder) and one that starts with them; only the member asked for may be read
+        decoy_hdr = "\n".join("{0:<14} {1}".format(k, v) for k, v in (
+            ("BYTEORDER", "I"), ("LAYOUT", "BIL"), ("NROWS", 1), ("NCOLS", 1), ("NBANDS", 1), ("NBITS", 8),
+            ("PIXELTYPE", "UNSIGNEDINT"), ("XLLCORNER", 77.0), ("YLLCORNER", -77.0), ("CELLSIZE", 9.0),
+            ("NODATA", 0), ("NAME", "decoy"), ("COMMENT", "decoy"))) + "\n"
         with zipfile.ZipFile(zp, "w") as z:
-            z.write(base + ".hdr", "sub/" + os.path.basename(base) + ".hdr")
-            z.write(base + ".bil", "sub/" + os.path.basename(base) + ".bil")
+            for pre in ("filled_", "sub/filled_", "sub/x"):
+                z.writestr(pre + name + ".hdr", decoy_hdr)
+                z.writestr(pre + name + ".bil", b"\x07")
+            z.write(base + ".hdr", "sub/" + name + ".hdr")
+            z.write(base + ".bil", "sub/" + name + ".bil")
+            z.write(base + ".hdr", name + ".hdr")
+            z.write(base + ".bil", name + ".bil")
+            z.writestr("sub/" + name + ".hdr.bak", decoy_hdr)
         try:
-            return Grid.from_zip(zp, "sub/" + os.path.basename(base) + ".hdr")
+            # asked for at the root of the archive for every second file name, in the folder otherwise
+            return Grid.from_zip(zp, ("" if "[" in name else "sub/") + name + ".hdr")
         finally:
             os.remove(zp)
     raise ValueError(route)
@@ -486,7 +500,8 @@ def check_io(ctx, Grid, case, tmpd):
         bo = "M" if src == "rawM" else "I"
         prefix = "grid.%s:byteorder=%s%s%s" % (route, bo, ":rawhdr" if src == "rawI" else "", lsfx)
         nt = (src != "rawM") or dt.itemsize > 1
-        base = os.path.join(tmpd, "Gr_A")
+        # file names: plain, and with brackets (as in hydrodiy's own AWRAL sub-grid rasters) for every second dtype
+        base = os.path.join(tmpd, "Gr[1]_A" if DTYPES.index(case["dtype"]) % 2 else "Gr_A")
         try:
             try:
                 if src == "save":
